@@ -182,6 +182,19 @@ def run(ctx, rng_name="main"):
         for k, (h, impl) in enumerate(batch):
             model, spec = ans[2 * k], ans[2 * k + 1]
             judge(ctx, h, impl, model, spec)
+        # the object as a state machine: the same reads, in order, on one fresh RevisionMap and on Model.Rev.Memo
+        picked = [(h, impl) for k, (h, impl) in enumerate(batch) if k % 4 == 0 and impl.get("err") != "hang"]
+        if picked:
+            mans = ctx.drv.ask([{"op": "rev.memo", "revs": h, "normOrder": impl.get("normOrder", []), "reads": rev_impl.MEMO_READS}
+                                for h, impl in picked])
+            for (h, impl), mm in zip(picked, mans):
+                ii = rev_impl.memo_reads(h)
+                mm = [{"ok": sorted(x["ok"])} if "ok" in x else {"err": x.get("err")} for x in mm]
+                ctx.hist("reads_on_one_object", "all refuse" if all("err" in x for x in ii) else "all answer" if all("ok" in x for x in ii) else "mixed")
+                if ii != mm:
+                    ctx.disagree("rev.memo", {"revs": h, "reads": rev_impl.MEMO_READS}, ii, mm)
+                else:
+                    ctx.trace_ok()
         del batch[:]
 
     for kind, h in histories(ctx, rng):
